@@ -347,6 +347,22 @@ def run(ctx):
         END = [i for i, v in enumerate(F.adts[R + 'RpcState']['variants']) if v['name'] == 'End'][0]
         ok = len(bc) == 1 and state_is_at(f, [bc[0][0]], END, 'rpc_parse')
         rep.check(r3, ok, nm + ':only-when-complete', 'build_repl is called only behind parser state == End: %s' % ok, f.loc(bc[0][0]) if bc else '')
+        # ... and always then: once the parser state is established to be End on the way to build_repl, no further test
+        # (on the record length, a counter, the payload) can still lead to silence - a complete call is answered
+        def is_state_end(k, r_, c_):
+            return isinstance(k, tuple) and k[0] == 'discr' and ('state' in short(k) or any(isinstance(x, tuple) and x[0] == 'modby' and x[1].endswith('rpc_parse') for x in walk(k))) and r_ == '==' and c_ == END
+        silent = []
+        n_end = 0
+        if bc:
+            for (b_, s_) in fact_edges(f, is_state_end):
+                if bc[0][0] not in f.reachable(s_) and bc[0][0] != s_:
+                    continue
+                n_end += 1
+                esc = f.reachable(s_, removed_blocks=[bc[0][0]])
+                if any(rb in esc for rb in f.return_blocks()):
+                    silent.append(f.loc(b_))
+        rep.check(r3, bool(bc) and n_end >= 1 and not silent, nm + ':always-when-complete',
+                  'from every edge establishing parser state == End (%d) each path to the return passes build_repl; edges with a silent way out: %s' % (n_end, silent), f.loc(bc[0][0]) if bc else '')
     uv = [a for rb in ru.return_blocks() for a in alts(ru.ret_value(rb)) if isinstance(a, tuple) and a[0] == 'agg' and a[1].endswith('Option::Some')]
     rep.check(r3, len(uv) == 1 and is_call(peel(uv[0][2][0], unwraps=False), r'rpc::build_repl$'), 'udp-bare-reply', 'UDP reply = %s' % [short(a)[:60] for a in uv])
 
